@@ -1,0 +1,322 @@
+// Verification hooks. Compiled only with `--cfg typify_verif`; add-only.
+
+#![allow(missing_docs)]
+
+use std::cell::RefCell;
+
+use schemars::schema::Schema;
+use serde_json::{json, Value};
+
+use crate::{
+    type_entry::{
+        EnumTagType, StructProperty, StructPropertyRename, StructPropertyState, TypeEntry,
+        TypeEntryDetails, TypeEntryNewtypeConstraints, Variant, VariantDetails,
+    },
+    util::{recase, sanitize, Case},
+    RefKey, TypeId, TypeSpace, TypeSpaceImpl,
+};
+
+thread_local! {
+    static PRE_CYCLES: RefCell<Option<Value>> = const { RefCell::new(None) };
+}
+
+fn prop_json(p: &StructProperty) -> Value {
+    json!({
+        "name": p.name,
+        "rename": match &p.rename {
+            StructPropertyRename::None => Value::Null,
+            StructPropertyRename::Rename(s) => json!({ "rename": s }),
+            StructPropertyRename::Flatten => json!("flatten"),
+        },
+        "state": match &p.state {
+            StructPropertyState::Required => json!("required"),
+            StructPropertyState::Optional => json!("optional"),
+            StructPropertyState::Default(v) => json!({ "default": v.0 }),
+        },
+        "type_id": p.type_id.0,
+    })
+}
+
+fn variant_json(v: &Variant) -> Value {
+    json!({
+        "raw_name": v.raw_name,
+        "ident_name": v.ident_name,
+        "details": match &v.details {
+            VariantDetails::Simple => json!("simple"),
+            VariantDetails::Item(id) => json!({ "item": id.0 }),
+            VariantDetails::Tuple(ids) =>
+                json!({ "tuple": ids.iter().map(|i| i.0).collect::<Vec<_>>() }),
+            VariantDetails::Struct(props) =>
+                json!({ "struct": props.iter().map(prop_json).collect::<Vec<_>>() }),
+        },
+    })
+}
+
+fn entry_json(ts: &TypeSpace, e: &TypeEntry) -> Value {
+    let impls = [
+        ("FromStr", TypeSpaceImpl::FromStr),
+        ("Display", TypeSpaceImpl::Display),
+        ("Default", TypeSpaceImpl::Default),
+    ]
+    .iter()
+    .filter(|(_, i)| e.has_impl(ts, *i))
+    .map(|(n, _)| json!(n))
+    .collect::<Vec<_>>();
+    let mut v = match &e.details {
+        TypeEntryDetails::Enum(d) => json!({
+            "kind": "enum",
+            "name": d.name,
+            "rename": d.rename,
+            "default": d.default.as_ref().map(|w| w.0.clone()),
+            "tag": match &d.tag_type {
+                EnumTagType::External => json!("external"),
+                EnumTagType::Internal { tag } => json!({ "internal": tag }),
+                EnumTagType::Adjacent { tag, content } => json!({ "adjacent": [tag, content] }),
+                EnumTagType::Untagged => json!("untagged"),
+            },
+            "variants": d.variants.iter().map(variant_json).collect::<Vec<_>>(),
+            "deny": d.deny_unknown_fields,
+            "bespoke": d.bespoke_impls.iter().map(|b| format!("{:?}", b)).collect::<Vec<_>>(),
+        }),
+        TypeEntryDetails::Struct(d) => json!({
+            "kind": "struct",
+            "name": d.name,
+            "rename": d.rename,
+            "default": d.default.as_ref().map(|w| w.0.clone()),
+            "props": d.properties.iter().map(prop_json).collect::<Vec<_>>(),
+            "deny": d.deny_unknown_fields,
+        }),
+        TypeEntryDetails::Newtype(d) => json!({
+            "kind": "newtype",
+            "name": d.name,
+            "rename": d.rename,
+            "default": d.default.as_ref().map(|w| w.0.clone()),
+            "type_id": d.type_id.0,
+            "constraints": match &d.constraints {
+                TypeEntryNewtypeConstraints::None => Value::Null,
+                TypeEntryNewtypeConstraints::EnumValue(vs) =>
+                    json!({ "enum": vs.iter().map(|w| w.0.clone()).collect::<Vec<_>>() }),
+                TypeEntryNewtypeConstraints::DenyValue(vs) =>
+                    json!({ "deny": vs.iter().map(|w| w.0.clone()).collect::<Vec<_>>() }),
+                TypeEntryNewtypeConstraints::String { max_length, min_length, pattern } =>
+                    json!({ "string": { "max": max_length, "min": min_length, "pattern": pattern } }),
+            },
+        }),
+        TypeEntryDetails::Native(d) => json!({
+            "kind": "native",
+            "type_name": d.type_name,
+            "parameters": d.parameters.iter().map(|i| i.0).collect::<Vec<_>>(),
+        }),
+        TypeEntryDetails::Option(id) => json!({ "kind": "option", "id": id.0 }),
+        TypeEntryDetails::Box(id) => json!({ "kind": "box", "id": id.0 }),
+        TypeEntryDetails::Vec(id) => json!({ "kind": "vec", "id": id.0 }),
+        TypeEntryDetails::Map(k, v) => json!({ "kind": "map", "key": k.0, "value": v.0 }),
+        TypeEntryDetails::Set(id) => json!({ "kind": "set", "id": id.0 }),
+        TypeEntryDetails::Array(id, n) => json!({ "kind": "array", "id": id.0, "len": n }),
+        TypeEntryDetails::Tuple(ids) =>
+            json!({ "kind": "tuple", "ids": ids.iter().map(|i| i.0).collect::<Vec<_>>() }),
+        TypeEntryDetails::Unit => json!({ "kind": "unit" }),
+        TypeEntryDetails::Boolean => json!({ "kind": "boolean" }),
+        TypeEntryDetails::Integer(n) => json!({ "kind": "integer", "name": n }),
+        TypeEntryDetails::Float(n) => json!({ "kind": "float", "name": n }),
+        TypeEntryDetails::String => json!({ "kind": "string" }),
+        TypeEntryDetails::JsonValue => json!({ "kind": "json_value" }),
+        TypeEntryDetails::Reference(id) => json!({ "kind": "reference", "id": id.0 }),
+    };
+    let obj = v.as_object_mut().unwrap();
+    obj.insert("impls".to_string(), Value::Array(impls));
+    obj.insert(
+        "extra_derives".to_string(),
+        json!(e.extra_derives.iter().collect::<Vec<_>>()),
+    );
+    v
+}
+
+fn ref_key_json(k: &RefKey) -> String {
+    match k {
+        RefKey::Root => "#".to_string(),
+        RefKey::Def(s) => format!("def:{}", s),
+    }
+}
+
+impl TypeSpace {
+    /// Complete dump of the intermediate representation and its indexes.
+    pub fn verif_dump(&self) -> Value {
+        let entries = self
+            .id_to_entry
+            .iter()
+            .map(|(id, e)| (id.0.to_string(), entry_json(self, e)))
+            .collect::<serde_json::Map<_, _>>();
+        json!({
+            "next_id": self.next_id,
+            "entries": entries,
+            "name_to_id": self.name_to_id.iter()
+                .map(|(k, v)| (k.clone(), json!(v.0))).collect::<serde_json::Map<_, _>>(),
+            "ref_to_id": self.ref_to_id.iter()
+                .map(|(k, v)| (ref_key_json(k), json!(v.0))).collect::<serde_json::Map<_, _>>(),
+            "type_to_id": self.type_to_id.values().map(|v| v.0).collect::<Vec<_>>(),
+            "definitions": self.definitions.keys().map(ref_key_json).collect::<Vec<_>>(),
+            "uses": {
+                "chrono": self.uses_chrono,
+                "uuid": self.uses_uuid,
+                "serde_json": self.uses_serde_json,
+                "regress": self.uses_regress,
+            },
+            "defaults": self.defaults.iter().map(|d| format!("{:?}", d)).collect::<Vec<_>>(),
+        })
+    }
+
+    pub(crate) fn verif_record_pre_cycles(&self) {
+        let v = self.verif_dump();
+        PRE_CYCLES.with(|c| *c.borrow_mut() = Some(v));
+    }
+
+    /// The dump taken just before the most recent cycle breaking on this thread.
+    pub fn verif_take_pre_cycles() -> Option<Value> {
+        PRE_CYCLES.with(|c| c.borrow_mut().take())
+    }
+
+    /// Numeric value of a type id.
+    pub fn verif_id(id: &TypeId) -> u64 {
+        id.0
+    }
+
+    /// Build an IR graph directly (entries keyed by id) and run cycle breaking over `roots`.
+    pub fn verif_break_cycles_on(graph: &Value, lo: u64, hi: u64) -> Value {
+        let mut ts = TypeSpace::default();
+        let mut max = 0;
+        for (k, v) in graph.as_object().unwrap() {
+            let id: u64 = k.parse().unwrap();
+            max = max.max(id);
+            let ids = |key: &str| -> Vec<TypeId> {
+                v[key].as_array().unwrap().iter().map(|x| TypeId(x.as_u64().unwrap())).collect()
+            };
+            let one = |key: &str| TypeId(v[key].as_u64().unwrap());
+            let details = match v["kind"].as_str().unwrap() {
+                "option" => TypeEntryDetails::Option(one("id")),
+                "box" => TypeEntryDetails::Box(one("id")),
+                "vec" => TypeEntryDetails::Vec(one("id")),
+                "set" => TypeEntryDetails::Set(one("id")),
+                "map" => TypeEntryDetails::Map(one("key"), one("value")),
+                "array" => TypeEntryDetails::Array(one("id"), v["len"].as_u64().unwrap() as usize),
+                "tuple" => TypeEntryDetails::Tuple(ids("ids")),
+                "string" => TypeEntryDetails::String,
+                "boolean" => TypeEntryDetails::Boolean,
+                "unit" => TypeEntryDetails::Unit,
+                "newtype" => TypeEntryDetails::Newtype(crate::type_entry::TypeEntryNewtype {
+                    name: v["name"].as_str().unwrap().to_string(),
+                    rename: None,
+                    description: None,
+                    default: None,
+                    type_id: one("type_id"),
+                    constraints: TypeEntryNewtypeConstraints::None,
+                    schema: crate::type_entry::SchemaWrapper::verif_any(),
+                }),
+                "struct" => TypeEntryDetails::Struct(crate::type_entry::TypeEntryStruct {
+                    name: v["name"].as_str().unwrap().to_string(),
+                    rename: None,
+                    description: None,
+                    default: None,
+                    properties: ids("props")
+                        .into_iter()
+                        .enumerate()
+                        .map(|(i, type_id)| StructProperty {
+                            name: format!("f{}", i),
+                            rename: StructPropertyRename::None,
+                            state: StructPropertyState::Required,
+                            description: None,
+                            type_id,
+                        })
+                        .collect(),
+                    deny_unknown_fields: false,
+                    schema: crate::type_entry::SchemaWrapper::verif_any(),
+                }),
+                "enum" => TypeEntryDetails::Enum(crate::type_entry::TypeEntryEnum {
+                    name: v["name"].as_str().unwrap().to_string(),
+                    rename: None,
+                    description: None,
+                    default: None,
+                    tag_type: EnumTagType::External,
+                    variants: v["variants"]
+                        .as_array()
+                        .unwrap()
+                        .iter()
+                        .enumerate()
+                        .map(|(i, var)| {
+                            let vids = |x: &Value| -> Vec<TypeId> {
+                                x.as_array().unwrap().iter()
+                                    .map(|y| TypeId(y.as_u64().unwrap())).collect()
+                            };
+                            Variant {
+                                raw_name: format!("V{}", i),
+                                ident_name: Some(format!("V{}", i)),
+                                description: None,
+                                details: if let Some(x) = var.get("item") {
+                                    VariantDetails::Item(TypeId(x.as_u64().unwrap()))
+                                } else if let Some(x) = var.get("tuple") {
+                                    VariantDetails::Tuple(vids(x))
+                                } else if let Some(x) = var.get("struct") {
+                                    VariantDetails::Struct(
+                                        vids(x)
+                                            .into_iter()
+                                            .enumerate()
+                                            .map(|(j, type_id)| StructProperty {
+                                                name: format!("f{}", j),
+                                                rename: StructPropertyRename::None,
+                                                state: StructPropertyState::Required,
+                                                description: None,
+                                                type_id,
+                                            })
+                                            .collect(),
+                                    )
+                                } else {
+                                    VariantDetails::Simple
+                                },
+                            }
+                        })
+                        .collect(),
+                    deny_unknown_fields: false,
+                    bespoke_impls: Default::default(),
+                    schema: crate::type_entry::SchemaWrapper::verif_any(),
+                }),
+                other => panic!("verif_break_cycles_on: unsupported kind {}", other),
+            };
+            let entry: TypeEntry = details.into();
+            if entry.name().is_none() {
+                ts.type_to_id.insert(entry.details.clone(), TypeId(id));
+            }
+            ts.id_to_entry.insert(TypeId(id), entry);
+        }
+        ts.next_id = max + 1;
+        ts.break_cycles(lo..hi);
+        ts.verif_dump()
+    }
+}
+
+/// `sanitize` with case "pascal" or "snake".
+pub fn verif_sanitize(input: &str, pascal: bool) -> String {
+    sanitize(input, if pascal { Case::Pascal } else { Case::Snake })
+}
+
+/// `recase` with case "pascal" or "snake".
+pub fn verif_recase(input: &str, pascal: bool) -> (String, Option<String>) {
+    recase(input, if pascal { Case::Pascal } else { Case::Snake })
+}
+
+/// `merge_all` over a list of schemas with the given definitions.
+pub fn verif_merge_all(schemas: &[Schema], defs: &[(String, Schema)]) -> Schema {
+    let defs = defs
+        .iter()
+        .map(|(k, v)| (RefKey::Def(k.clone()), v.clone()))
+        .collect();
+    crate::merge::merge_all(schemas, &defs)
+}
+
+/// `all_mutually_exclusive`.
+pub fn verif_all_mutually_exclusive(schemas: &[Schema], defs: &[(String, Schema)]) -> bool {
+    let defs = defs
+        .iter()
+        .map(|(k, v)| (RefKey::Def(k.clone()), v.clone()))
+        .collect();
+    crate::util::all_mutually_exclusive(schemas, &defs)
+}
